@@ -285,7 +285,9 @@ class Env:
                 return {"k": "Exited", "ran": ran, "corrupt": isinstance(h.outcome, RuntimeError),
                         "outcome": type(h.outcome).__name__ if h.outcome is not None else None}
             if k == "AddResource":
-                v = None if op["v"] is None else CLASSES[op["vty"]](op["v"])
+                # one object per value number: an operation issued twice registers the very same object again
+                vals = self.__dict__.setdefault("vals", {})
+                v = None if op["v"] is None else vals.setdefault((op["vty"], op["v"]), CLASSES[op["vty"]](op["v"]))
                 kw = {}
                 if op["desc"] is not None:
                     kw["description"] = f"d{op['desc']}"
@@ -307,7 +309,10 @@ class Env:
                 ctx.add_resource(*args, **kw)
                 return {"k": "OK"}
             if k == "AddFactory":
-                f = self.make_factory(op["f"], op["kind"])
+                facs = self.__dict__.setdefault("facs", {})
+                if op["f"] not in facs:
+                    facs[op["f"]] = self.make_factory(op["f"], op["kind"])
+                f = facs[op["f"]]
                 if op["types"]:
                     self.fkeys[op["f"]] = (op["types"][0], op["name"])
                     self.ftypes[op["f"]] = list(op["types"])
@@ -548,8 +553,13 @@ class Env:
             name = self.gen_name(r)
             for t in (types or [vty]):
                 self.note_key(t, name)
-            return {"op": "AddResource", "c": h.idx, "v": v, "vty": vty, "name": name, "types": types,
-                    "single": r.random() < 0.5, "desc": r.choice([None, None, 1, 2]), "cb": cb}
+            op = {"op": "AddResource", "c": h.idx, "v": v, "vty": vty, "name": name, "types": types,
+                  "single": r.random() < 0.5, "desc": r.choice([None, None, 1, 2]), "cb": cb}
+            if v is not None and cb is None and r.random() < 0.12:
+                # the identical call once more (same object, same types, name and description): a conflict like
+                # any other
+                self.plan = [dict(op)]
+            return op
         if k < 0.45:
             types = self.gen_types(r, True)
             if r.random() < 0.04:
@@ -559,9 +569,12 @@ class Env:
                 self.note_key(t, name)
             f = self.next_fid
             self.next_fid += 1
-            return {"op": "AddFactory", "c": h.idx, "f": f, "kind": r.choice(["FSync", "FSync", "FAsyncImm", "FAsyncSusp"]),
-                    "name": name, "types": types, "single": r.random() < 0.5 and types != [99],
-                    "desc": r.choice([None, None, 1, 2])}
+            op = {"op": "AddFactory", "c": h.idx, "f": f, "kind": r.choice(["FSync", "FSync", "FAsyncImm", "FAsyncSusp"]),
+                  "name": name, "types": types, "single": r.random() < 0.5 and types != [99],
+                  "desc": r.choice([None, None, 1, 2])}
+            if types and types != [99] and r.random() < 0.08:
+                self.plan = [dict(op)]          # the same factory callable registered a second time, identically
+            return op
         if k < 0.63:
             t, n = self.pick_key(r)
             return {"op": "GetNowait", "c": h.idx, "t": t, "name": n, "optional": r.random() < 0.3}
